@@ -28,7 +28,7 @@ CHECKS = {
          "No call in the enumerated product (poles to equator, all policies incl. nearest latitude -90..90, all roundings, 0/1/2 parameter deviations to the edges of the stated ranges) panics, hangs (> 5 s) or returns other than 7 entries.",
          "Deviation alphabet and date subset are finite samples of the stated ranges chosen at their edges; hang = no result within 5 s.", "3/C07"),
  "C08": (G, "exploration", "bounded exhaustive differential enumeration: every (site, date, method, policy) against the conventional result of the same call",
-         "On the lattice (|lat| <= 70, 8 methods x 14 policies, every date of the stated years) restricted policies leave the other four times untouched, 'invalid' policies keep valid Fajr/Isha unflagged, unflagged times equal the conventional ones and replaced ones are flagged. One known finding (KNOWN_FINDINGS.txt).",
+         "On the lattice (|lat| <= 70, 8 methods x 14 policies, every date of the stated years) restricted policies leave the other four times untouched, 'invalid' policies keep valid Fajr/Isha unflagged, unflagged times equal the conventional ones and replaced ones are flagged.",
          "Conventional = policy None; exact equality; quantifier exemptions as the property states.", "3/C08"),
  "C09": (G, "exploration", "bounded exhaustive enumeration of dates in order with a history oracle (conventional sweep over neighbouring dates)",
          "For every date of the enumerated years at |lat| <= 64 the nearest-good-day policies report the conventional Fajr/Isha (all six for the all-prayers variant) of the closest date with both valid, earlier on ties, +-1 s, flagged.",
@@ -111,7 +111,7 @@ manifest = {
     ],
     "checks": checks,
     "not_applicable": not_app,
-    "notes": "Exit codes: 0 held, 1 violation (VIOLATION line), >=2 machinery failure. Known findings: /verif/KNOWN_FINDINGS.txt. Seeded detection demonstrations: /verif/seeded/.",
+    "notes": "Exit codes: 0 held, 1 violation (VIOLATION line), >=2 machinery failure. Known findings: /verif/KNOWN_FINDINGS.txt (currently only fixed: lines - nine repaired defects). Seeded detection demonstrations: /verif/seeded/ (141 property-breaking changes); false-alarm probes: /verif/refactorings/ (16 behaviour-preserving refactorings).",
 }
 json.dump(manifest, open(os.path.join(V, "MANIFEST.json"), "w"), indent=1)
 print("wrote MANIFEST.json with", len(checks), "checks;", len(not_app), "not yet claimed")
